@@ -220,6 +220,29 @@ def recorded_paths(E, R, app):
     return "ok"
 
 
+def successive(E, R, app):
+    """several short-lived master keys (3 symbolically, with id() a free value per object; 40 in the native replay) one after the other in the same process (each dropped before the next is
+    built): every secret belongs to the master it was asked from"""
+    import gc
+    for j in range(3 if E.symbolic else 40):
+        k, kb = cm.sym_scalar(E, "k" if j == 0 else "k%d" % (j + 1))
+        c = E.bytes("c" if j == 0 else "c%d" % (j + 1), 32)
+        master = R.bip32.PrvKeyNode(key=kb, chain_code=c)
+        b85 = R.bip85.BIP85DeterministicEntropy(master_node=master)
+        r = E.run(b85.hex, 32, 0) if app == "hex" else E.run(b85.pwd, 30, 1)
+        if app == "hex":
+            ent = ref_entropy(E, k, c, [83696968 + HARD, 128169 + HARD, 32 + HARD, HARD])
+            if not isinstance(r, Raised):
+                E.check_eq(r, ent[:32].hex(), "secret belongs to the master key it was requested from (successive wallets)")
+        else:
+            ent = ref_entropy(E, k, c, [83696968 + HARD, 707764 + HARD, 30 + HARD, 1 + HARD])
+            if not isinstance(r, Raised):
+                E.check(not E.symbolic or r is not None, "secret belongs to the master key it was requested from (successive wallets)")
+        del b85, master
+        gc.collect()
+    return "ok"
+
+
 def paper(E, R):
     """PaperWallet.bip85_data lists the documented entries with the values of the functions above"""
     w, k, c = hw.mk_wallet(E, R, False)
@@ -256,6 +279,8 @@ def cases(tier):
                                                               "password == first pwd_len characters of Base64(E) at m/83696968'/707764'/pwd_len'/index'")),
           Case("distinct", "distinct", need=("distinct (application, parameter, index) triples give distinct paths",)),
           Case("paper", "paper", weight=5, need=("bip85_data entry equals the BIP85 value for the path in its key",))]
+    cs.append(Case("successive[hex]", "successive", dict(app="hex"),
+                   need=("secret belongs to the master key it was requested from (successive wallets)",)))
     for app in ("mnemonic", "wif", "xprv", "hex", "pwd"):
         cs.append(Case("path[%s]" % app, "recorded_paths", dict(app=app), need=("derived path is the fully hardened BIP85 path of the application",)))
     return cs
